@@ -34,7 +34,8 @@ def _run_job(job):
     def _alarm(signum, frame):
         raise TimeoutError(f'job exceeded its wall-time budget ({JOB_BUDGET_S[tier]} s)')
     signal.signal(signal.SIGALRM, _alarm)
-    signal.alarm(JOB_BUDGET_S[tier])
+    from verif.engine.core import load_scale
+    signal.alarm(int(JOB_BUDGET_S[tier] * load_scale()))
     try:
         mod = importlib.import_module(modname)
         fn = getattr(mod, fname)
